@@ -77,6 +77,18 @@ def canon_row(d):
     return sorted(out, key=lambda p: p[0])
 
 
+def canon_padded(res):
+    """the four tables as `Table` exposes them: column order and cells with `Missing` kept apart from None"""
+    out = []
+    for t in (res.environments, res.learners, res.evaluators, res.interactions):
+        cols = list(t.columns)
+        rows = []
+        for d in t.to_dicts():
+            rows.append([["M"] if type(d[c]).__name__ == "MissingType" else canon_val(d[c]) for c in cols])
+        out.append({"columns": cols, "rows": rows})
+    return out
+
+
 def canon_result(res):
     return {
         "exp": canon_val(dict(res.experiment)),
@@ -275,6 +287,7 @@ def run_impl(case):
         r2, x2, m2, _ = run_route(case, path)
         out["file"] = canon_result(r2) if r2 is not None else {"raised": x2}
         logs["file"] = m2
+        logs["padded"] = canon_padded(r2) if r2 is not None else None
         try:
             with _Ctx():
                 r3 = Result.from_file(path)
@@ -411,28 +424,18 @@ def reward_form(o):
     return ["d", [[["s", name], st]]]
 
 
-ESC = chr(0xE000)
-
-
 def lean_str(s):
-    """injective escape of code points the JSON line protocol to the Lean driver cannot carry (surrogates, NUL)"""
-    if not any(0xD800 <= ord(c) <= 0xDFFF or c == "\x00" or c == ESC for c in s):
+    """order-preserving injective recoding of strings for the JSON line protocol to the Lean driver, which cannot carry
+    surrogates: code points from U+D800 on are shifted up by 0x800 (generated strings stay below U+10F800)"""
+    if not any(ord(c) >= 0xD800 for c in s):
         return s
-    return "".join((ESC + "%04x" % ord(c)) if (0xD800 <= ord(c) <= 0xDFFF or c == "\x00" or c == ESC) else c for c in s)
+    return "".join(chr(ord(c) + 0x800) if ord(c) >= 0xD800 else c for c in s)
 
 
 def unlean_str(s):
-    if ESC not in s:
+    if not any(ord(c) >= 0xE000 for c in s):
         return s
-    out, i = [], 0
-    while i < len(s):
-        if s[i] == ESC and len(s) >= i + 5 and all(ch in "0123456789abcdef" for ch in s[i + 1:i + 5]):
-            out.append(chr(int(s[i + 1:i + 5], 16)))
-            i += 5
-        else:
-            out.append(s[i])
-            i += 1
-    return "".join(out)
+    return "".join(chr(ord(c) - 0x800) if ord(c) >= 0xE000 else c for c in s)
 
 
 def lean_key(k):
@@ -466,7 +469,8 @@ def lean_val(v):
     if t == "d":
         return ["d", [[lean_key(k), lean_val(x)] for k, x in v[1]]]
     if t == "r":
-        return lean_val(reward_form(v))      # serialised by json's default hook after minimize: a one-entry dict
+        form = reward_form(v)                # the model itself produces the registered json form {name: state} (Val.reward)
+        return ["r", form[1][0][0][1], lean_val(form[1][0][1])]
     raise ValueError(v)
 
 
@@ -488,6 +492,10 @@ def sort_model_val(c):
             return ["d", sorted([[unlean_str(k), sort_model_val(v)] for k, v in c[1]], key=lambda p: p[0])]
         if c[0] == "s":
             return ["s", unlean_str(c[1])]
+        if c[0] == "q" and c[2] != 1:
+            # a non-integral model number stands for the double nearest to it; canon_val names doubles by their shortest decimal repr
+            fr = Fraction(repr(c[1] / c[2]))
+            return ["q", fr.numerator, fr.denominator]
     return c
 
 
@@ -535,6 +543,10 @@ def eq_mod_ties(a, b):
     return a == b
 
 
+def lenient_cell(col, c):
+    return ["l", c[1]] if col == "rewards" and isinstance(c, list) and c and c[0] == "t" else c
+
+
 def lenient_rewards(res):
     """the exempt 'rewards' column: list or tuple are the same observable"""
     if "raised" in res:
@@ -570,8 +582,10 @@ def val_ok(o, g, top, tupled=True):
         return None if g is o else "bool"
     t = o[0]
     if t == "r":
-        why = val_ok(reward_form(o), g, top, tupled)
-        return ("reward-" + why) if why else None
+        # the registered json form {name: __getstate__()} exactly; the state goes through json as it is (not rounded)
+        form = reward_form(o)
+        want = canon_val({form[1][0][0][1]: dec(form[1][0][1])})
+        return None if g == want else "reward-form"
     if t == "i":
         return None if g == ["q", int(o[1]), 1] else "int"
     if t == "f":
@@ -827,7 +841,7 @@ def gen_float(rng):
 def gen_reward(rng):
     """a coba reward object (evaluators such as SequentialCB(record=['rewards']) put them into rows)"""
     k = rng.below(6)
-    fl = lambda: ["f", rng.choice(["0.25", "0.75", "0.5", "1.0", "-2.5", "0.125", "3.0"])]
+    fl = lambda: ["f", rng.choice(["0.25", "0.75", "0.5", "1.0", "-2.5", "0.125", "3.0", "0.123456789", "5e-06", "1.234565"])]
     acts = ["l", [["i", a] for a in rng.sample([0, 1, 2, 3, 5], rng.choice([2, 3]))]]
     if k == 0:
         return ["r", "L1", [fl()]]
@@ -968,10 +982,14 @@ def gen_rows(rng, prone, tags):
     return rows
 
 
+# model variants: encoder pinned/repaired (str-key collision) x reader pinned/repaired (per-cell tuples) x log without/with `_n` ("S" = without)
+COMBOS = ("ffS", "ftS", "tfS", "ttS", "ff", "ft", "tf", "tt")
+
+
 class C07(Property):
     id = "C07"
     prop_modules = ["CobaVerif.Props.C07"]
-    quick_n, thorough_n, search_n = 1500, 30000, 2500
+    quick_n, thorough_n, search_n = 1200, 30000, 2500
     case_timeout = 60
     workers = 8
     rule = ("a case is an experiment (1-3 environments, 1-3 learners, 1-2 evaluators, a non-empty set of triples) whose instrumented evaluators yield generated rows "
@@ -983,7 +1001,9 @@ class C07(Property):
     trusted_base = [
         "json text codec (json.dumps/json.loads), file write/read and gzip: modelled as the identity on values modulo tuple->list and key->string (jsonify); checked on every case by (A)",
         "float <-> shortest decimal repr (float.__repr__ / float()): the model's k/10^5 stands for the double nearest to it",
-        "binary64 product v*10**5 modelled by `fl` (round to nearest even, normal range), validated by (A) incl. decimal and dyadic ties",
+        "binary64 product v*10**5 modelled by `fl` (round to nearest even, normal range; proved exact on 53-bit significands), validated by (A) incl. decimal and dyadic ties",
+        "reward objects: the registered name and `__getstate__()` of L1Reward/BinaryReward/HammingReward/DiscreteReward are supplied by the harness (reward_form); the model builds {name: state} itself",
+        "Table: only `columns` and `to_dicts()` (Missing kept apart from None) are modelled (padTable); index structures (_indexes/_lohis) are C17's; Result.__init__ caches are not observable through the tables",
         "MakeTasks/ProcessTasks/SafeEnvironment/SafeLearner/SafeEvaluator (which transactions are emitted) are mirrored by the harness, not by the Lean model",
     ]
     assumptions = [
@@ -994,10 +1014,10 @@ class C07(Property):
         "field names equal to environment_id/learner_id/evaluator_id/index are overwritten by the id columns and are outside the property's quantifier",
     ]
     partial_theorems = {
-        "first_row_tuple_partial": "the pinned commit converts a column by looking at its first row only; equal to the per-cell conversion only when firstRowDecides (see first_row_tuple_counterexample / fixes/C07-tuple-per-cell.diff)",
-        "packAsIs_partial": "the pinned commit's packing is correct only when str() is injective on the field names of the transaction (see packAsIs_collision_counterexample / fixes/C07-str-key-collision.diff)",
-        "roundtrip_normalise_partial": "a transaction whose rows have no field at all leaves no row in the table (empty_rows_dropped_counterexample); recorded as C07-F5",
-        "minimize_idempotent_partial": "idempotence of the concrete round5 needs |k| <= 2^53 for the rounded numerator",
+        "first_row_tuple_partial": "the code before aa4bb4c converted a column by looking at its first row only; equal to the per-cell conversion only when firstRowDecides (first_row_tuple_counterexample; fixed in /repo)",
+        "packAsIs_partial": "the code before 4cf485f packed correctly only when str() is injective on the field names of the transaction (packAsIs_collision_counterexample; fixed in /repo)",
+        "roundtrip_normalise_partial": "a log without `_n` (current /repo, before fixes/C07-rows-without-fields.diff): a transaction whose rows have no field at all leaves no row in the table (empty_rows_dropped_counterexample, C07-F5); `roundtrip_normalise` is the full-strength theorem for the repaired code",
+        "minimize_idempotent_partial": "superseded by minimize_idempotent_full (phase 2); kept as the bounded corollary",
     }
 
     # ---- cases
@@ -1178,7 +1198,7 @@ class C07(Property):
             info = ["d", [[S("n_learners"), ["i", len(lid)]], [S("n_environments"), ["i", len(eid)]],
                           [S("description"), (["s", case["desc"]] if case.get("desc") is not None else None)], [S("seed"), ["i", case.get("seed", 1)]]]]
             ans = driver.ask({"info": lean_val(info), "txs": [lean_tx(t) for t in txs], "phase1": None if p1 is None else [lean_tx(t) for t in p1]})
-            combos = {c: {r: canon_model_result(ans[c][r]) for r in ("nofile", "file", "from_file")} for c in ("ff", "ft", "tf", "tt")}
+            combos = {c: {r: canon_model_result(ans[c][r]) for r in ("nofile", "file", "from_file")} for c in COMBOS}
             model = {"ff": combos["ff"]["file"], "tt": combos["tt"]["file"]}
             collide = any(has_collision(rows_of(case, t)) for t in done)
             # (A): the implementation equals the model of the pinned code or of (partly) repaired code, the same one on all routes
@@ -1186,10 +1206,10 @@ class C07(Property):
                 or any(has_tie(r) for _, rows in case["rows"] for r in rows)
             limpl = {r: lenient_rewards(impl[r]) for r in impl}
             combos = {c: {r: lenient_rewards(combos[c][r]) for r in combos[c]} for c in combos}
-            matching = [c for c in ("ff", "ft", "tf", "tt") if all(limpl[r] == combos[c][r] for r in ("nofile", "file", "from_file"))]
+            matching = [c for c in COMBOS if all(limpl[r] == combos[c][r] for r in ("nofile", "file", "from_file"))]
             if not matching and ties:
                 # a value at a rounding tie may legitimately go either way (e.g. round(v,5) instead of round(v*P)/P)
-                matching = [c for c in ("ff", "ft", "tf", "tt") if all(eq_mod_ties(limpl[r], combos[c][r]) for r in ("nofile", "file", "from_file"))]
+                matching = [c for c in COMBOS if all(eq_mod_ties(limpl[r], combos[c][r]) for r in ("nofile", "file", "from_file"))]
                 if matching:
                     tags.append("A:tie-tolerance-used")
             if not matching:
@@ -1218,6 +1238,19 @@ class C07(Property):
                     fails.append(F("A", "the Result differs from the Lean model of the pinned and of the repaired code; " + diff, "A:result"))
             else:
                 tags.append("A:match:" + matching[-1])
+            # (A) Table view: column order and Missing-padding of the four tables (model `tablesOf`)
+            pad = ans.get("padS" if matching and matching[-1].endswith("S") else "pad")
+            if logs.get("padded") is not None and isinstance(pad, list) and matching:
+                for name, it, mt in zip(("envs", "lrns", "vals", "ints"), logs["padded"], pad):
+                    mcols = [unlean_str(c) for c in mt["columns"]]
+                    mrows = [[sort_model_val(c) for c in r] for r in mt["rows"]]
+                    irows = [[lenient_cell(n, c) for n, c in zip(it["columns"], r)] for r in it["rows"]]
+                    mrows = [[lenient_cell(n, c) for n, c in zip(mcols, r)] for r in mrows]
+                    if it["columns"] != mcols:
+                        fails.append(F("A", "Table.columns of %s is %s, model %s" % (name, json.dumps(it["columns"]), json.dumps(mcols)), "A:padded:columns:" + name))
+                    elif irows != mrows and not (ties and eq_mod_ties(irows, mrows)):
+                        fails.append(F("A", "padded rows of %s differ: implementation %s, model %s" % (name, json.dumps(irows)[:300], json.dumps(mrows)[:300]), "A:padded:rows:" + name))
+                tags.append("A:padded-tables-compared")
             # (C): the model of the repaired code meets the specification (theorems roundtrip_normalise / params_roundtrip at run time),
             #      and the Lean specification meets the Python oracle of the documented normalisation
             tt = combos["tt"]["nofile"]
@@ -1233,7 +1266,7 @@ class C07(Property):
                     seen[tuple(sp["ids"])] = sp        # the last record of a triple wins
                 for ids, sp in seen.items():
                     srows = [canon_model_row(r) for r in sp["rows"]]
-                    if sp["nkeys"] > 0 and by.get(ids, []) != srows:
+                    if by.get(ids, []) != srows:
                         fails.append(F("C", "model rows of triple %s differ from specRows" % (ids,), "C:specRows"))
                 spec_impl = {"file": {"exp": impl["file"].get("exp"), "envs": [], "lrns": [], "vals": [], "ints": [r for ids, sp in sorted(seen.items()) for r in [canon_model_row(x) for x in sp["rows"]]]}}
                 # Lean spec vs Python oracle: run the (B) interaction monitor on the spec rows
